@@ -70,13 +70,30 @@ let show_err = function
   | E_no_function n -> "no_function " ^ hex (encode n) | E_cb n -> "cb " ^ hex (encode n)
   | E_unsupported o -> "unsupported " ^ string_of_int (int_of_n o)
   | E_arity -> "arity"
+  | E_overflow o -> "panic " ^ string_of_int (int_of_n o) ^ " overflow"
   | E_panic o -> "panic " ^ string_of_int (int_of_n o)
+
+let rec int_of_nat = function O -> 0 | S n -> 1 + int_of_nat n
+
+(* certificate mode: for every function of the dump print the verdict of the verified checker on the
+   labelling the (unverified) work-list proposes, and the labelling itself *)
+let certify_mode prog =
+  List.iter (fun (name, code) ->
+    match infer code with
+    | None -> Printf.printf "CERT %s false no-labelling\n" (hex (encode name))
+    | Some ds ->
+      let ok = check code ds in
+      Printf.printf "CERT %s %b %s\n" (hex (encode name)) ok
+        (String.concat ";" (List.map (function
+           | None -> "-"
+           | Some (d, s) -> string_of_int (int_of_nat d) ^ ":" ^ String.concat "," (List.map (fun n -> string_of_int (int_of_nat n)) s)) ds))) prog
 
 let () =
   let ic = open_in_bin Sys.argv.(1) in
   let data = really_input_string ic (in_channel_length ic) in
   close_in ic;
   let prog = parse_dump data in
+  if Array.length Sys.argv > 2 && Sys.argv.(2) = "--certify" then (certify_mode prog; exit 0);
   let entry = decode Sys.argv.(2) in
   let fuel = nat_of_int (int_of_string Sys.argv.(3)) in
   let ((out, oc), tr) = execute fuel prog entry in
